@@ -73,11 +73,14 @@ func runC17(c *Ctx) {
 	d.run()
 	want := []string{"DET-COLLECT|ctl17.AppendInOrder", "DET-MAPRANGE|ctl17.FirstHit", "DET-MAPRANGE|ctl17.Concat", "DET-COLLECT|ctl17.KeysUnsorted",
 		"DET-COLLECT|ctl17.PartialSort", "DET-SOURCE|ctl17.Clock", "DET-SOURCE|ctl17.Random", "DET-SOURCE|ctl17.Addr",
-		"DET-COLLECT|ctl17.SortFuncPartial", "DET-COLLECT|ctl17.SorterByPosition"}
+		"DET-COLLECT|ctl17.SortFuncPartial", "DET-COLLECT|ctl17.SorterByPosition",
+		"DET-MAPRANGE|ctl17.LabelledFirstHit", "DET-MAPRANGE|ctl17.ContinueOuter",
+		"DET-COLLECT|ctl17.SortKeyFuncPartial", "DET-COLLECT|ctl17.SortKeyCounting",
+		"DET-COLLECT|ctl17.DecoratePartial", "DET-COLLECT|ctl17.DecorateHalf", "DET-COLLECT|ctl17.DecorateForgotten", "DET-COLLECT|ctl17.ImageUnsorted"}
 	for _, w := range want {
 		c.check(fired[w] > 0, "DET-CONTROL", "control", w, token.NoPos, "positive control fired", "the positive control "+w+" was not reported: the rule is broken")
 	}
-	silent := []string{"ctl17.KeyedCopy", "ctl17.SortedKeys", "ctl17.MinMax", "ctl17.SortFuncTotal", "ctl17.SorterType"}
+	silent := []string{"ctl17.KeyedCopy", "ctl17.SortedKeys", "ctl17.MinMax", "ctl17.SortFuncTotal", "ctl17.SorterType", "ctl17.InnerLabel", "ctl17.SortKeyFunc", "ctl17.Decorate"}
 	for _, s := range silent {
 		n := 0
 		for k, v := range fired {
@@ -130,6 +133,8 @@ type detAnalyzer struct {
 	emit    sink
 	control bool
 	ssa     *ssaIndex // SSA form of the function literals and functions of the package
+	labelOf map[ast.Stmt]string // label in front of a statement
+	derived []types.Object      // slices that the statement last judged by orderFreeUse fills from the unordered one
 }
 
 func (d *detAnalyzer) pkgShort() string {
@@ -277,6 +282,18 @@ func (d *detAnalyzer) stmtLists(fn string, root *ast.BlockStmt, n ast.Node) {
 			return true
 		}
 		for i, st := range list {
+			for {
+				// a label in front of the statement does not change what it is
+				ls, ok := st.(*ast.LabeledStmt)
+				if !ok {
+					break
+				}
+				st = ls.Stmt
+				if d.labelOf == nil {
+					d.labelOf = map[ast.Stmt]string{}
+				}
+				d.labelOf[st] = ls.Label.Name
+			}
 			switch st := st.(type) {
 			case *ast.RangeStmt:
 				if d.isMap(st.X) {
@@ -353,12 +370,18 @@ func (d *detAnalyzer) collectAssign(fn string, list []ast.Stmt, i int, st *ast.A
 }
 
 // collected: variable obj holds, after statement list[i], a slice in map
-// iteration order.  Scan forward for the total sort.
-func (d *detAnalyzer) collected(fn string, list []ast.Stmt, i int, obj types.Object, src string, pos token.Pos) {
+// iteration order.  Scan forward for the total sort.  A loop over the slice that fills another
+// local slice element by element (append, or slot i for element i) hands the unknown order on:
+// that slice is followed in the same way.  Once such an image has been totally sorted, a loop
+// that writes it back slot by slot into the first slice (of the same length) leaves a
+// determined sequence there.  Returns whether the slice is known to be in a determined order,
+// and after which statement.
+func (d *detAnalyzer) collected(fn string, list []ast.Stmt, i int, obj types.Object, src string, pos token.Pos) (bool, int) {
 	if obj == nil {
-		return
+		return false, -1
 	}
 	construct := src + " → " + obj.Name()
+	images := map[types.Object][2]int{} // image slice → (statement that derives it, statement that sorts it)
 	for j := i + 1; j < len(list); j++ {
 		st := list[j]
 		if !d.mentions(st, obj) {
@@ -366,17 +389,184 @@ func (d *detAnalyzer) collected(fn string, list []ast.Stmt, i int, obj types.Obj
 		}
 		if sorted, why := d.isTotalSort(st, obj); sorted {
 			d.emit("DET-COLLECT", fn, construct, pos, true, "collected then totally sorted ("+why+")", "")
-			return
+			return true, j
 		} else if why != "" {
 			d.emit("DET-COLLECT", fn, construct, pos, false, "", "the slice holding "+src+" is sorted at "+d.c.pos(st.Pos())+" but the order is not total: "+why)
-			return
+			return false, j
 		}
+		if from, ok := d.rewrittenFrom(list, j, obj, images); ok {
+			d.emit("DET-COLLECT", fn, construct, pos, true, "rewritten slot by slot from `"+from.Name()+"`, its element-wise image of the same length, after that was totally sorted", "")
+			return true, j
+		}
+		d.derived = nil
 		if ok, why := d.orderFreeUse(st, obj); !ok {
 			d.emit("DET-COLLECT", fn, construct, pos, false, "", "the slice holding "+src+" (map iteration order) is used at "+d.c.pos(st.Pos())+" before it is sorted: "+why)
-			return
+			return false, j
+		}
+		derived := d.derived
+		d.derived = nil
+		for _, t := range derived {
+			if t == obj {
+				continue
+			}
+			if ok, at := d.collected(fn, list, j, t, "elements of "+obj.Name()+" ("+src+")", st.Pos()); ok {
+				images[t] = [2]int{j, at}
+			}
 		}
 	}
 	d.emit("DET-COLLECT", fn, construct, pos, false, "", "the slice holding "+src+" (map iteration order) is never sorted in the statement list where it is built")
+	return false, -1
+}
+
+// rewrittenFrom: list[j] is `for p, v := range T { S[p] = g(v) }` with T an image of S (built
+// element by element from S, hence of the same length, see sameLength) that has been totally
+// sorted before; the position p selects the slot and nothing else, g does not look at S.
+func (d *detAnalyzer) rewrittenFrom(list []ast.Stmt, j int, S types.Object, images map[types.Object][2]int) (types.Object, bool) {
+	rs, ok := list[j].(*ast.RangeStmt)
+	if !ok {
+		return nil, false
+	}
+	x, ok := unparen(rs.X).(*ast.Ident)
+	if !ok {
+		return nil, false
+	}
+	T := d.info.ObjectOf(x)
+	at, isImage := images[T]
+	if !isImage || at[1] < 0 || at[1] >= j {
+		return nil, false
+	}
+	kid, ok := rs.Key.(*ast.Ident)
+	if !ok || kid.Name == "_" {
+		return nil, false
+	}
+	var elem types.Object
+	if id, ok := rs.Value.(*ast.Ident); ok {
+		elem = d.info.ObjectOf(id)
+	}
+	b := &bodyClass{d: d, key: elem, posVar: d.info.ObjectOf(kid), bodyPos: rs.Body.Pos(), bodyEnd: rs.Body.End()}
+	b.block(rs.Body.List, true)
+	if len(b.problems) > 0 || len(b.collected) > 0 || len(b.imaged) == 0 || !b.positionSelectsSlotsOnly(rs.Body) {
+		return nil, false
+	}
+	for _, im := range b.imaged {
+		if im != S {
+			return nil, false
+		}
+	}
+	// S occurs as the target only
+	onlyTarget := true
+	ast.Inspect(rs.Body, func(n ast.Node) bool {
+		if id, ok := n.(*ast.Ident); ok && d.info.ObjectOf(id) == S && !b.slotBases[id] {
+			onlyTarget = false
+		}
+		return true
+	})
+	if !onlyTarget || !d.sameLength(list, at[0], j, S, T) {
+		return nil, false
+	}
+	return T, true
+}
+
+// sameLength: T, filled from S element by element in the loop list[derivedAt], has the length of
+// S at statement list[upto]: T starts out as make([]E, len(S)) and is filled by slot, or starts
+// out empty and gets one append per element; between T's definition and list[upto] nothing
+// else touches T but its sort, and S occurs as len(S) only.
+func (d *detAnalyzer) sameLength(list []ast.Stmt, derivedAt, upto int, S, T types.Object) bool {
+	def := -1
+	byMake, empty := false, false
+	for k := 0; k < derivedAt; k++ {
+		switch st := list[k].(type) {
+		case *ast.AssignStmt:
+			if st.Tok != token.DEFINE || len(st.Lhs) != 1 || len(st.Rhs) != 1 {
+				continue
+			}
+			if id, ok := st.Lhs[0].(*ast.Ident); !ok || d.info.Defs[id] != T {
+				continue
+			}
+			def = k
+			if call, ok := unparen(st.Rhs[0]).(*ast.CallExpr); ok && d.isBuiltin(call, "make") && len(call.Args) >= 2 {
+				if ln, ok := unparen(call.Args[1]).(*ast.CallExpr); ok && d.isBuiltin(ln, "len") && len(ln.Args) == 1 && len(call.Args) == 2 {
+					if id, ok := unparen(ln.Args[0]).(*ast.Ident); ok && d.info.ObjectOf(id) == S {
+						byMake = true
+					}
+				}
+				if v, ok := constIntOf(d.info, call.Args[1]); ok && v == 0 {
+					empty = true
+				}
+			}
+		case *ast.DeclStmt:
+			if gd, ok := st.Decl.(*ast.GenDecl); ok {
+				for _, sp := range gd.Specs {
+					if vs, ok := sp.(*ast.ValueSpec); ok && len(vs.Names) == 1 && len(vs.Values) == 0 && d.info.Defs[vs.Names[0]] == T {
+						def, empty = k, true
+					}
+				}
+			}
+		}
+	}
+	if def < 0 || !(byMake || empty) {
+		return false
+	}
+	// how the loop fills T
+	rs, ok := list[derivedAt].(*ast.RangeStmt)
+	if !ok {
+		return false
+	}
+	appends, slots := 0, 0
+	conditional := false
+	var walk func(l []ast.Stmt, top bool)
+	walk = func(l []ast.Stmt, top bool) {
+		for _, st := range l {
+			if !d.mentions(st, T) {
+				if _, isBranch := st.(*ast.BranchStmt); isBranch {
+					conditional = true
+				}
+				if top {
+					// a statement that may leave the iteration before T is filled
+					ast.Inspect(st, func(n ast.Node) bool {
+						switch n.(type) {
+						case *ast.BranchStmt, *ast.ReturnStmt:
+							conditional = true
+						case *ast.FuncLit:
+							return false
+						}
+						return true
+					})
+				}
+				continue
+			}
+			as, ok := st.(*ast.AssignStmt)
+			if !ok || !top || len(as.Lhs) != 1 {
+				conditional = true
+				continue
+			}
+			switch l := unparen(as.Lhs[0]).(type) {
+			case *ast.Ident:
+				appends++
+			case *ast.IndexExpr:
+				_ = l
+				slots++
+			}
+		}
+	}
+	walk(rs.Body.List, true)
+	if conditional || !(byMake && slots == 1 && appends == 0 || empty && appends == 1 && slots == 0) {
+		return false
+	}
+	for k := def + 1; k < upto; k++ {
+		if k == derivedAt {
+			continue
+		}
+		if d.mentions(list[k], T) {
+			if sp, isSort, _ := d.sortOf(list[k], T); !isSort || sp == nil {
+				return false
+			}
+		}
+		if d.mentions(list[k], S) && !d.onlyLen(list[k], S) {
+			return false
+		}
+	}
+	return true
 }
 
 func (d *detAnalyzer) mentions(n ast.Node, obj types.Object) bool {
@@ -469,20 +659,29 @@ func (d *detAnalyzer) orderFreeUse(st ast.Stmt, obj types.Object) (bool, string)
 		if !ok || d.info.ObjectOf(x) != obj {
 			return false, "range expression uses the slice indirectly"
 		}
+		var posVar types.Object
 		if st.Key != nil {
 			if id, ok := st.Key.(*ast.Ident); ok && id.Name != "_" {
-				return false, "the loop uses the position of the elements"
+				posVar = d.info.ObjectOf(id)
 			}
 		}
 		var elem types.Object
 		if id, ok := st.Value.(*ast.Ident); ok {
 			elem = d.info.ObjectOf(id)
 		}
-		b := &bodyClass{d: d, key: elem, bodyPos: st.Body.Pos(), bodyEnd: st.Body.End()}
+		b := &bodyClass{d: d, key: elem, posVar: posVar, bodyPos: st.Body.Pos(), bodyEnd: st.Body.End()}
 		b.block(st.Body.List, true)
 		if len(b.problems) > 0 {
 			return false, "loop over the unsorted slice is order-dependent: " + b.problems[0]
 		}
+		if posVar != nil && !b.positionSelectsSlotsOnly(st.Body) {
+			// the position may select the slot of another slice that receives the element's image
+			// (that slice is then as unordered as this one, see collected); any other use of it
+			// makes the result depend on the order
+			return false, "the loop uses the position of the elements"
+		}
+		d.derived = append(d.derived, b.collected...)
+		d.derived = append(d.derived, b.imaged...)
 		return true, ""
 	case *ast.DeclStmt, *ast.ExprStmt:
 		if d.onlyLen(st, obj) {
@@ -544,7 +743,7 @@ func (d *detAnalyzer) mapRange(fn string, root *ast.BlockStmt, list []ast.Stmt, 
 	if id, ok := st.Value.(*ast.Ident); ok && id.Name != "_" {
 		val = d.info.ObjectOf(id)
 	}
-	b := &bodyClass{d: d, key: key, val: val, bodyPos: st.Body.Pos(), bodyEnd: st.Body.End()}
+	b := &bodyClass{d: d, key: key, val: val, bodyPos: st.Body.Pos(), bodyEnd: st.Body.End(), ownLabel: d.labelOf[st]}
 	b.block(st.Body.List, true)
 	if len(b.problems) > 0 {
 		d.emit("DET-MAPRANGE", fn, construct, st.Pos(), false, "", "the body of this loop over a map depends on iteration order: "+strings.Join(b.problems, "; "))
@@ -605,6 +804,12 @@ type bodyClass struct {
 	kinds            []string
 	collected        []types.Object
 	loopDepth        int
+	posVar           types.Object        // loop over a slice: the position variable, if the loop has one
+	imaged           []types.Object      // local slices that receive `T[pos] = …`
+	slotIdents       map[*ast.Ident]bool // the occurrences of posVar that select such a slot
+	slotBases        map[*ast.Ident]bool // the occurrences of T in `T[pos] = …`
+	ownLabel         string              // label of the loop over the map itself, if it has one
+	innerLabels      map[string]bool // labels of statements inside the body: a jump to them stays within one iteration
 }
 
 func (b *bodyClass) local(obj types.Object) bool {
@@ -715,17 +920,21 @@ func (b *bodyClass) stmt(s ast.Stmt) {
 	case *ast.BranchStmt:
 		switch s.Tok {
 		case token.CONTINUE:
-			if s.Label != nil && b.loopDepth == 0 {
-				// continue of this very loop by label
+			if s.Label != nil && b.innerLabels[s.Label.Name] {
+				// continues a loop that lies inside the body
 				return
 			}
-			if s.Label != nil {
-				// label of an enclosing construct: ok only if it is a loop inside the body (rare)
-				b.kinds = append(b.kinds, "continue")
+			if s.Label != nil && s.Label.Name != b.ownLabel {
+				// the label of a loop around the loop over the map
+				b.problem(s.Pos(), "`continue %s` ends the iteration at whichever entry comes first", s.Label.Name)
 				return
 			}
 			b.kinds = append(b.kinds, "continue")
 		case token.BREAK:
+			if s.Label != nil && b.innerLabels[s.Label.Name] {
+				// leaves a statement that lies inside the body: the iteration over the map goes on
+				return
+			}
 			if b.loopDepth == 0 || s.Label != nil {
 				b.problem(s.Pos(), "`break` ends the iteration at whichever entry comes first")
 			}
@@ -737,6 +946,10 @@ func (b *bodyClass) stmt(s ast.Stmt) {
 	case *ast.ReturnStmt:
 		b.problem(s.Pos(), "`return` ends the iteration at whichever entry comes first")
 	case *ast.LabeledStmt:
+		if b.innerLabels == nil {
+			b.innerLabels = map[string]bool{}
+		}
+		b.innerLabels[s.Label.Name] = true
 		b.stmt(s.Stmt)
 	default:
 		b.problem(s.Pos(), "statement %T has effects the rule cannot show to commute", s)
@@ -847,6 +1060,22 @@ func (b *bodyClass) assignTarget(l ast.Expr, rhs ast.Expr, pos token.Pos, compou
 		if id, ok := unparen(l.X).(*ast.Ident); ok && b.local(d.info.ObjectOf(id)) {
 			return
 		}
+		if id, ok := unparen(l.X).(*ast.Ident); ok && b.posVar != nil && !compound {
+			if ix, ok := unparen(l.Index).(*ast.Ident); ok && d.info.ObjectOf(ix) == b.posVar {
+				if v, ok := d.info.ObjectOf(id).(*types.Var); ok && !v.IsField() && v.Parent() != v.Pkg().Scope() {
+					if _, isSlice := v.Type().Underlying().(*types.Slice); isSlice {
+						// slot p of a local slice receives the image of element p
+						if b.slotIdents == nil {
+							b.slotIdents, b.slotBases = map[*ast.Ident]bool{}, map[*ast.Ident]bool{}
+						}
+						b.slotIdents[ix], b.slotBases[id] = true, true
+						b.imaged = append(b.imaged, v)
+						b.kinds = append(b.kinds, "element-wise image in a local slice (must be sorted afterwards)")
+						return
+					}
+				}
+			}
+		}
 		b.problem(pos, "write to `%s` is not keyed by the loop key", types.ExprString(l))
 	case *ast.SelectorExpr, *ast.StarExpr:
 		// field of a body-local variable is fine
@@ -880,6 +1109,22 @@ func (b *bodyClass) assignTarget(l ast.Expr, rhs ast.Expr, pos token.Pos, compou
 	default:
 		b.problem(pos, "write to `%s`", types.ExprString(l))
 	}
+}
+
+// positionSelectsSlotsOnly: every occurrence of the position variable in the loop body is the
+// index of a slot write `T[pos] = …` recorded in imaged.
+func (b *bodyClass) positionSelectsSlotsOnly(body *ast.BlockStmt) bool {
+	if b.posVar == nil {
+		return true
+	}
+	ok := true
+	ast.Inspect(body, func(n ast.Node) bool {
+		if id, isId := n.(*ast.Ident); isId && b.d.info.ObjectOf(id) == b.posVar && !b.slotIdents[id] {
+			ok = false
+		}
+		return true
+	})
+	return ok
 }
 
 // keyed: the index expression is the loop key (possibly converted).
